@@ -61,11 +61,29 @@ func checkC07(e *Env) {
 			e.Violate(&Violation{What: "default-source NewMnemonic did not return normally: " + f, Ops: []plan.Op{*op}, Observed: r})
 			return nil
 		}
+		out := string(unhex(r.Out))
+		if wrapper {
+			// a failure injected at crypto/rand.Reader before 4n/3 bytes were delivered must fail closed
+			total, sawErr := 0, false
+			for _, ev := range r.Reads {
+				total += ev.N
+				if ev.E != "" {
+					sawErr = true
+				}
+			}
+			if sawErr && total < int(op.N)+int(op.N)/3 {
+				obs.Inc("injected_crypto_rand_failures_observed")
+				if r.Err == nil || out != "" {
+					e.Violate(&Violation{What: fmt.Sprintf("crypto/rand.Reader failed after delivering %d of %d bytes during NewMnemonic(%d, %s), yet the call returned err=%s and %s: the mnemonic does not come from the OS source", total, int(op.N)+int(op.N)/3, op.N, ref.Names[op.L], errText(r.Err), preview(out)),
+						Ops: []plan.Op{*op}, Observed: r})
+				}
+				return nil
+			}
+		}
 		if r.Err != nil {
 			e.Violate(&Violation{What: fmt.Sprintf("NewMnemonic(%d, %d) with the default source failed: %s", op.N, op.L, errText(r.Err)), Ops: []plan.Op{*op}, Observed: r})
 			return nil
 		}
-		out := string(unhex(r.Out))
 		ent, st, _ := e.Model.Dec(strings.Fields(out), int(op.L))
 		if st != ref.OK || len(strings.Fields(out)) != int(op.N) {
 			e.Violate(&Violation{What: fmt.Sprintf("NewMnemonic(%d, %s) with the default source returned something that is not a valid %d-word mnemonic (%s): %s", op.N, ref.Names[op.L], op.N, st, preview(out)), Ops: []plan.Op{*op}, Observed: r})
@@ -105,7 +123,18 @@ func checkC07(e *Env) {
 		wrapper := p%2 == 0
 		var env []string
 		if wrapper {
-			env = []string{"VERIF_EARLYRAND=1"}
+			// interposer modes: plain recording, fragmented reads, a failing read
+			mode := "1"
+			switch (p / 2) % 4 {
+			case 1:
+				mode = "short"
+			case 2:
+				mode = "fail:" + itoa(1+(p*7)%calls)
+			case 3:
+				mode = "failpartial:" + itoa(1+(p*11)%calls)
+			}
+			env = []string{"VERIF_EARLYRAND=" + mode}
+			obs.Inc("processes_with_interposer_mode_" + strings.SplitN(mode, ":", 2)[0])
 		}
 		ops := planFor(p, true)
 		res, died := e.RunProc(drv, ops, env, 0)
@@ -294,7 +323,7 @@ func checkC07(e *Env) {
 	e.WriteEvidence("exploration", map[string]any{
 		"evaluations":            totalCalls,
 		"distinct_nontrivial":    dist.Len(),
-		"rule":                   "cases are default-source NewMnemonic calls (all five word counts, all ten languages) made in fresh processes that swapped nothing; half of the processes run with the crypto/rand interposer (aaverif/internal/earlyrand, initialised before bip39) where every sentence must decode to exactly the bytes crypto/rand.Reader delivered during that call, the other half with the untouched crypto/rand.Reader where the pre-swap source must be identical to it; further processes run without any hook under strace and every sentence must decode to the buffer of one getrandom(2) call; non-trivial = every call (each is matched against observed source bytes or decoded for the duplicate/uniformity statistics); distinct = distinct entropies observed",
+		"rule":                   "cases are default-source NewMnemonic calls (all five word counts, all ten languages) made in fresh processes that swapped nothing; half of the processes run with the crypto/rand interposer (aaverif/internal/earlyrand, initialised before bip39) where every sentence must decode to exactly the bytes crypto/rand.Reader delivered during that call (the interposer also fragments reads in some processes and makes one read fail in others: that call must then return (\"\", error)), the other half with the untouched crypto/rand.Reader where the pre-swap source must be identical to it; further processes run without any hook under strace and every sentence must decode to the buffer of one getrandom(2) call; non-trivial = every call (each is matched against observed source bytes or decoded for the duplicate/uniformity statistics); distinct = distinct entropies observed",
 		"samples":                smp.List(),
 		"observations":           obs.Map(),
 		"kernel_boundary_layer":  straceState,
